@@ -23,7 +23,11 @@ package multiplex
 //@     return [12]byte{byte(sid>>24), byte(sid>>16), byte(sid>>8), byte(sid), byte(seq>>56), byte(seq>>48), byte(seq>>40), byte(seq>>32), byte(seq>>24), byte(seq>>16), byte(seq>>8), byte(seq)}
 //@ }
 //@ ghost func ksByte(o *Obfuscator, msg []byte, i int) byte { return ufbytes("salsa_ks", i, msg[len(msg)-8:len(msg)], o.sessionKey) }
-//@ ghost func xorb(a byte, k byte) byte { return byte(uf("bxor", a, k)) }
+//@ ghost func xorb(a byte, k byte) byte { return uf8("bxor", a, k) }
+
+//@ ghost func encHdr(o *Obfuscator, f *Frame, buf []byte, n int, i int) bool {
+//@     return buf[i] == xorb(hdrByte(f.StreamID, f.Seq, f.Closing, n - 14 - len(f.Payload), i), ksByte(o, buf[0:n], i))
+//@ }
 
 //@ func (*Obfuscator).obfuscate
 //@   requires f != nil && cipherOK(o)
@@ -37,8 +41,68 @@ package multiplex
 //@   ensures lenHigh: ret1 == nil ==> ret0 <= 14 + len(f.Payload) + 255
 //@   ensures noPadAfter5: ret1 == nil && f.Seq >= 5 ==> ret0 == 14 + len(f.Payload) + tagLen(o)
 //@   ensures bigEnough: len(f.Payload) > 0 && len(buf) >= 14 + len(f.Payload) + 255 ==> ret1 == nil
-//@   ensures header: ret1 == nil ==> (forall i int :: 0 <= i && i < 14 ==> buf[i] == xorb(hdrByte(f.StreamID, f.Seq, f.Closing, ret0 - 14 - len(f.Payload), i), ksByte(o, buf[0:ret0], i)))
+//@   ensures header: ret1 == nil ==> encHdr(o, f, buf, ret0, 0) && encHdr(o, f, buf, ret0, 1) && encHdr(o, f, buf, ret0, 2) && encHdr(o, f, buf, ret0, 3) && encHdr(o, f, buf, ret0, 4) && encHdr(o, f, buf, ret0, 5) && encHdr(o, f, buf, ret0, 6) && encHdr(o, f, buf, ret0, 7) && encHdr(o, f, buf, ret0, 8) && encHdr(o, f, buf, ret0, 9) && encHdr(o, f, buf, ret0, 10) && encHdr(o, f, buf, ret0, 11) && encHdr(o, f, buf, ret0, 12) && encHdr(o, f, buf, ret0, 13)
 //@   ensures plainBody: ret1 == nil && o.payloadCipher == nil ==> (forall k int :: 0 <= k && k < len(f.Payload) ==> buf[14+k] == old(f.Payload[k]))
 //@   ensures sealedValid: ret1 == nil && o.payloadCipher != nil ==> ufb("aead_valid", sem(o), nonceOf(f.StreamID, f.Seq), 12, buf[14:ret0])
 //@   ensures sealedBody: ret1 == nil && o.payloadCipher != nil ==> (forall k int :: 0 <= k && k < len(f.Payload) ==> ufbytes("aead_open", k, sem(o), nonceOf(f.StreamID, f.Seq), 12, buf[14:ret0]) == old(f.Payload[k]))
 //@   modifies elems(buf)
+
+// plaintext header byte i of a received message, as any decoder of the layout computes it
+//@ ghost func plainHdr(o *Obfuscator, msg []byte, i int) byte { return xorb(msg[i], ksByte(o, msg, i)) }
+//@ ghost func be32(b0 byte, b1 byte, b2 byte, b3 byte) uint32 { return uint32(int(b0)*16777216 + int(b1)*65536 + int(b2)*256 + int(b3)) }
+//@ ghost func be64(b0 byte, b1 byte, b2 byte, b3 byte, b4 byte, b5 byte, b6 byte, b7 byte) uint64 {
+//@     return uint64(int(b0)*72057594037927936 + int(b1)*281474976710656 + int(b2)*1099511627776 + int(b3)*4294967296 + int(b4)*16777216 + int(b5)*65536 + int(b6)*256 + int(b7))
+//@ }
+//@ ghost func rxNonce(o *Obfuscator, msg []byte) [12]byte {
+//@     return [12]byte{plainHdr(o, msg, 0), plainHdr(o, msg, 1), plainHdr(o, msg, 2), plainHdr(o, msg, 3), plainHdr(o, msg, 4), plainHdr(o, msg, 5), plainHdr(o, msg, 6), plainHdr(o, msg, 7), plainHdr(o, msg, 8), plainHdr(o, msg, 9), plainHdr(o, msg, 10), plainHdr(o, msg, 11)}
+//@ }
+//@ ghost func rxValid(o *Obfuscator, msg []byte) bool { return ufb("aead_valid", sem(o), rxNonce(o, msg), 12, msg[14:len(msg)]) }
+
+//@ func (*Obfuscator).deobfuscate
+//@   requires f != nil && cipherOK(o)
+//@   requires keyApart: arrayOf(in) != arrayOf(o.sessionKey)
+//@   ensures tooShort: len(in) < 22 ==> ret0 != nil
+//@   ensures extraTooBig: len(in) >= 22 && int(old(plainHdr(o, in, 13))) > len(in) - 14 ==> ret0 != nil
+//@   ensures authRequired: len(in) >= 22 && o.payloadCipher != nil && !old(rxValid(o, in)) ==> ret0 != nil
+//@   ensures accepts: len(in) >= 22 && int(old(plainHdr(o, in, 13))) <= len(in) - 14 && (o.payloadCipher == nil || (old(rxValid(o, in)) && len(in) - 14 >= 16)) ==> ret0 == nil
+//@   ensures streamID: ret0 == nil ==> f.StreamID == be32(old(plainHdr(o, in, 0)), old(plainHdr(o, in, 1)), old(plainHdr(o, in, 2)), old(plainHdr(o, in, 3)))
+//@   ensures seq: ret0 == nil ==> f.Seq == be64(old(plainHdr(o, in, 4)), old(plainHdr(o, in, 5)), old(plainHdr(o, in, 6)), old(plainHdr(o, in, 7)), old(plainHdr(o, in, 8)), old(plainHdr(o, in, 9)), old(plainHdr(o, in, 10)), old(plainHdr(o, in, 11)))
+//@   ensures closing: ret0 == nil ==> f.Closing == old(plainHdr(o, in, 12))
+//@   ensures payloadPlace: ret0 == nil ==> aliases(f.Payload, in, 14) && len(f.Payload) == len(in) - 14 - int(old(plainHdr(o, in, 13)))
+//@   ensures plainPayload: ret0 == nil && o.payloadCipher == nil ==> (forall k int :: 0 <= k && k < len(f.Payload) ==> f.Payload[k] == old(in[14+k]))
+//@   ensures openedPayload: ret0 == nil && o.payloadCipher != nil ==> (forall k int :: 0 <= k && k < len(f.Payload) && k < len(in) - 14 - 16 ==> f.Payload[k] == old(ufbytes("aead_open", k, sem(o), rxNonce(o, in), 12, in[14:len(in)])))
+//@   ensures untouchedOnError: ret0 != nil ==> f.StreamID == old(f.StreamID) && f.Seq == old(f.Seq) && f.Closing == old(f.Closing) && sameSlice(f.Payload, old(f.Payload))
+//@   modifies elems(in), f.StreamID, f.Seq, f.Closing, f.Payload
+
+// Lemma roundTrip (C04): for every frame, method and buffer placement, decoding the encoded message
+// under the same Obfuscator returns the identical frame. Proved from the two contracts above only.
+//@ ghost func encPre(o *Obfuscator, f *Frame, buf []byte, off int) bool {
+//@     return cipherOK(o) && (off == 14 ==> aliases(f.Payload, buf, 14)) && (off != 14 ==> disjoint(f.Payload, buf)) && arrayOf(buf) != arrayOf(o.sessionKey) && arrayOf(f.Payload) != arrayOf(o.sessionKey)
+//@ }
+//@ ghost func sameSid(g *Frame, f *Frame) bool { return g.StreamID == f.StreamID }
+//@ ghost func sameSeq(g *Frame, f *Frame) bool { return g.Seq == f.Seq }
+//@ ghost func sameClosing(g *Frame, f *Frame) bool { return g.Closing == f.Closing }
+//@ ghost func sameLen(g *Frame, f *Frame) bool { return len(g.Payload) == len(f.Payload) }
+//@ ghost func samePayloadAsBefore(g *Frame, f *Frame) bool { return forall k int :: 0 <= k && k < len(g.Payload) ==> g.Payload[k] == old(f.Payload[k]) }
+//@ ghost func samePayloadPlain(o *Obfuscator, g *Frame, f *Frame) bool { return o.payloadCipher == nil ==> (forall k int :: 0 <= k && k < len(g.Payload) ==> g.Payload[k] == old(f.Payload[k])) }
+//@ ghost func samePayloadAead(o *Obfuscator, g *Frame, f *Frame) bool { return o.payloadCipher != nil ==> (forall k int :: 0 <= k && k < len(g.Payload) ==> g.Payload[k] == old(f.Payload[k])) }
+//@ ghost func nonceAgree(o *Obfuscator, f *Frame, m []byte) bool { return rxNonce(o, m) == nonceOf(f.StreamID, f.Seq) }
+//@ ghost func extraAgree(o *Obfuscator, f *Frame, m []byte) bool { return int(plainHdr(o, m, 13)) == len(m) - 14 - len(f.Payload) && len(m) - 14 - len(f.Payload) >= tagLen(o) }
+//@ lemma func roundTrip(o *Obfuscator, f *Frame, g *Frame, buf []byte, off int) {
+//@     if o == nil || f == nil || g == nil || f == g { return }
+//@     assume(encPre(o, f, buf, off))
+//@     n, err := o.obfuscate(f, buf, off)
+//@     if err != nil { return }
+//@     m := buf[:n]
+//@     assert(nonceAgree(o, f, m))
+//@     assert(extraAgree(o, f, m))
+//@     err2 := o.deobfuscate(g, m)
+//@     assert(err2 == nil)
+//@     assert(sameSid(g, f))
+//@     assert(sameSeq(g, f))
+//@     assert(sameClosing(g, f))
+//@     assert(sameLen(g, f))
+//@     assert(samePayloadPlain(o, g, f))
+//@     assert(samePayloadAead(o, g, f))
+//@     assert(samePayloadAsBefore(g, f))
+//@ }
